@@ -92,6 +92,16 @@ CHECKS["C18"] = dict(
     technique="Lean 4 proof (bag equalities via List.Perm, filter/materialize commutation) + op-sequence correspondence on DuckDB",
 )
 
+CHECKS["C13"] = dict(
+    category="proof",
+    text="Lean 4 theorems over the detection cascade regenerated from loaders.py (AST translator preserving and/or precedence): for EVERY file content carrying a format's structural-key signature the cascade selects that format "
+         "(one theorem per YAML format, suffix-only formats by decide); detection is file-local; merge of parsed files is order-independent for distinct model names. "
+         "Tie: original if/elif chain executed on synthetic contents vs the Lean cascade; every exporter's real output checked against its signature; load_from_directory on directories of 1-8 exporter outputs (nested, disjoint names) and a deterministic per-exporter battery vs adapter.parse per file.",
+    design_ref="DESIGN.md §4 C13",
+    note="The signatures are validated on generated exporter output, not proved about the exporters. Known findings: substring probes inside user text (F12), SML short-circuit (F12), metric-less models in Superset/Hex/Omni/BSL (F24). Superset mis-detection fixed in /repo (4b0b0f5). Python-file execution path not modelled.",
+    technique="Lean 4 proof (simp over translator-regenerated decision list) + chain-vs-model correspondence + directory loading oracle",
+)
+
 NOT_APPLICABLE = {}
 
 
